@@ -337,7 +337,8 @@ def run(ctx):
     for where, f, x in on_route:
         e = x[2][1] if len(x[2]) > 1 else ("unknown", "?")
         es = expr_str(e, 120)
-        ok = ("pc" in es and "state" in es)
+        # the PC of the freshly loaded state, or the origin the image was built with (its first word, which from_raw turns into that PC)
+        ok = ("pc" in es and "state" in es) or ("orig(" in es and "air" in es)
         ctx.oblig(ok, {"with_orig argument": es, "in": where}, "the loaded PC (= origin)")
         if not ok:
             ctx.violation("with_orig-arg", f.file_line(), "with_orig(%s): expected the origin the image was loaded at" % es)
